@@ -82,6 +82,13 @@ class St:
         return St(self.env, self.pc, self.cost, self.effects, self.events + (e,))
 
 UNBOUND = VPy(type('Unbound', (), {'__repr__': lambda s: '<unbound>'})())
+POISON = VPy(type('Poison', (), {'__repr__': lambda s: '<loop-carried>'})())
+@dataclass(frozen=True)
+class VKeyDiff(V):       # kwargs.keys() - <constant set of names>
+    src: object; excluded: tuple
+@dataclass
+class SymIter:           # a symbolic iteration domain: all values elem(var) with dom(var); ordered => var is an Int index
+    var: object; dom: object; elem: object; ordered: bool; lo: object = None; st: object = None
 
 class Exec:
     def __init__(self, uni, scope=None, *, prune=True, call_model=None, name='', random_int_name='__beartype_random_int',
@@ -171,6 +178,7 @@ class Exec:
             if v is UNBOUND:
                 self.obl(st, 'defined.name', z3.BoolVal(False), f'read of unassigned {n.id}')
                 return []
+            if v is POISON: raise Unsupported(f'loop-carried variable {n.id} (loop summarisation needs iterations without carried state)')
             return [(st, v)]
         if n.id in self.scope: return [(st, self.wrap(self.scope[n.id]))]
         if hasattr(builtins, n.id): return [(st, VPy(getattr(builtins, n.id)))]
@@ -259,6 +267,8 @@ class Exec:
     def e_BinOp(self, n, st):
         outs = []
         for s, (l, r) in self.eval_list([n.left, n.right], st):
+            if isinstance(n.op, ast.Sub) and isinstance(l, VView) and l.kind == 'keys' and isinstance(r, VPy) and isinstance(r.o, (set, frozenset)):
+                outs.append((s, VKeyDiff(l.src, tuple(sorted(r.o, key=repr))))); continue
             a, b = self.as_int(l), self.as_int(r)
             if isinstance(n.op, ast.Mod):
                 self.obl(s, 'defined.mod', b != 0, ast.unparse(n)[:80]); s = s.assume(b != 0)
@@ -643,4 +653,61 @@ class Exec:
             outs.append(('next', s.assume(t), None))
         return outs
     def s_Import(self, n, st): return [('next', st, None)]
+    # ---- loops: summarisation of `for v in <symbolic iterable>: body` whose iterations carry no state (appendix E)
+    def symiter(self, s, v):
+        if isinstance(v, VSlice):
+            bt = self.obj(v.src); j = M.fresh('j', z3.IntSort()); n = M.len_(bt)
+            ok = M.inst(bt, self.uni.const(cabc.Sequence)); self.obl(s, 'defined.slice', ok, 'slice of a sequence'); s = s.assume(ok)
+            lo = v.lo if v.lo is not None else z3.IntVal(0)
+            if v.hi is not None: raise Unsupported('slice with upper bound in a for loop')
+            self.obl(s, 'defined.slice_nonneg', lo >= 0, 'non-negative slice start (negative starts count from the end: not modelled)')
+            return SymIter(j, z3.And(lo <= j, j < n), VObj(M.item(bt, j)), True, lo, s.eff('iterate_slice', bt, lo))
+        if isinstance(v, VKeyDiff):
+            bt = self.obj(v.src); k = M.fresh('k')
+            return SymIter(k, z3.And(M.mem(bt, k), *[k != self.uni.const(e) for e in v.excluded]), VObj(k), False, None, s.eff('iterate_keys', bt))
+        if isinstance(v, VClosure) and isinstance(v.node, ast.GeneratorExp):
+            g = v.node
+            if len(g.generators) != 1 or g.generators[0].ifs or not isinstance(g.generators[0].target, ast.Name): raise Unsupported('generator expression form')
+            inner_env = St(v.env, s.pc, s.cost, s.effects, s.events)
+            r = self.eval(g.generators[0].iter, inner_env)
+            if len(r) != 1: raise Unsupported('generator source forks')
+            it = self.symiter(r[0][0], r[0][1])
+            s2 = it.st.set(g.generators[0].target.id, it.elem).assume(it.dom)
+            r2 = self.eval(g.elt, s2)
+            if len(r2) != 1: raise Unsupported('generator element forks')
+            s3, ev = r2[0]
+            return SymIter(it.var, it.dom, ev, it.ordered, it.lo, St(s.env, tuple(c for c in s3.pc if not c.eq(it.dom)), s3.cost, s3.effects, s3.events))
+        if isinstance(v, VObj):
+            bt = v.t; k = M.fresh('k')
+            ok = M.inst(bt, self.uni.const(cabc.Iterable)); self.obl(s, 'defined.iter', ok, 'for loop over an iterable'); s = s.assume(ok)
+            return SymIter(k, M.mem(bt, k), VObj(k), False, None, St(s.env, s.pc, s.cost + M.len_(bt), s.effects + (('iterate_all', bt, 'for'),), s.events))
+        raise Unsupported(f'for loop over {type(v).__name__}')
+    def s_For(self, n, st):
+        if n.orelse: raise Unsupported('for/else')
+        outs = []
+        assigned = {x.id for b in n.body for x in ast.walk(b) if isinstance(x, ast.Name) and isinstance(x.ctx, ast.Store)}
+        tnames = {x.id for x in ast.walk(n.target) if isinstance(x, ast.Name)}
+        for s0, itv in self.eval(n.iter, st):
+            it = self.symiter(s0, itv); s = it.st
+            base = len(s.pc)
+            sb = s
+            for a in assigned - tnames: sb = sb.set(a, POISON)
+            sb = self.assign(sb, n.target, it.elem).assume(it.dom)
+            body = self.exec_block(n.body, sb)
+            normal = [o for o in body if o[0] in ('next', 'continue')]
+            def delta(o): return [c for c in o[1].pc[base:] if not c.eq(it.dom)]
+            N = z3.Or(*[z3.And(*delta(o)) if delta(o) else z3.BoolVal(True) for o in normal]) if normal else z3.BoolVal(False)
+            allok = z3.ForAll([it.var], z3.Implies(it.dom, N))
+            ex = s.assume(allok)
+            for a in assigned | tnames: ex = ex.set(a, VObj(M.fresh('havoc_' + a)))
+            outs.append(('next', ex.eff('loop_done'), None))
+            for kind, so, v in body:
+                if kind in ('next', 'continue'): continue
+                if kind == 'break': raise Unsupported('break in a summarised loop')
+                if it.ordered:
+                    i = M.fresh('i', z3.IntSort())
+                    earlier = z3.ForAll([i], z3.Implies(z3.And(it.lo <= i, i < it.var), z3.substitute(N, (it.var, i))))
+                    so = so.assume(earlier)
+                outs.append((kind, so, v))
+        return outs
     s_ImportFrom = s_Import
